@@ -364,6 +364,21 @@ impl<'a> LiveEvents<'a> {
             let (raw, span) = item.map_err(Error::from_scan_error)?;
             let location = location_from_span(&span);
 
+            // A shorthand tag needs a suffix after its handle (`!!` or `!e!` alone is not a
+            // tag). The parser's streaming scanner rejects it; its string scanner lets it
+            // through, so reject it here for every input to be treated alike.
+            if let Event::Scalar(_, _, _, Some(tag))
+            | Event::SequenceStart(_, Some(tag))
+            | Event::MappingStart(_, Some(tag)) = &raw
+                && !tag.handle.is_empty()
+                && tag.suffix.is_empty()
+            {
+                return Err(Error::from_scan_error(ScanError::new_str(
+                    span.start,
+                    "while parsing a tag, did not find expected tag URI",
+                )));
+            }
+
             if let Some(ref mut budget) = self.budget
                 && let Err(breach) = budget.observe(&raw)
             {
